@@ -306,6 +306,60 @@ func TestC10(t *testing.T) {
 			return c09Live{N: nt[0], T: nt[1], RawLog: rapid.Bool().Draw(rt, "raw"), Foreign: true}
 		},
 		func(p c09Live) *viol { return c09RunLive(t, st, p) })
+	// a genuine contribution cannot be replayed into another step of the signing phase: a participant's answer to one
+	// batch, arriving (or re-posted) while a later batch with the very same message ids is open, counts for nothing there
+	rapidProp(t, st, "answers-across-batches", perShard(pick(96, 2400)), 3, c10GenAcross, func(p tPlan) *viol { return c10RunAcross(t, st, p) })
+}
+
+func c10GenAcross(rt *rapid.T) tPlan {
+	nt := rapid.SampledFrom([][2]int{{3, 2}, {4, 2}, {4, 3}, {5, 3}}).Draw(rt, "nt")
+	p := tPlan{N: nt[0], T: nt[1]}
+	perm := rapid.Permutation(seq(p.N)).Draw(rt, "perm")
+	baked := rapid.Bool().Draw(rt, "baked")
+	nb := rapid.IntRange(2, 3).Draw(rt, "batches")
+	for b := 0; b < nb; b++ {
+		tb := tBatch{Proposer: rapid.IntRange(0, p.N-1).Draw(rt, "proposer")}
+		if baked {
+			tb.Tasks = []sTask{{ID: fmt.Sprintf("range-b%d", b), Start: 7, End: 9}} // equal message ids in every batch
+		} else {
+			tb.Tasks = []sTask{{ID: "doc-1", File: "doc", Payload: []byte("the same document in every batch")}}
+		}
+		if b+1 < nb {
+			// the first batches end by failure reports, with one or two answers still on their way
+			nslow := rapid.IntRange(1, min(2, p.T-1)).Draw(rt, "nslow")
+			tb.Slow = append(tb.Slow, perm[:nslow]...)
+			tb.Failing = append(tb.Failing, perm[nslow:nslow+p.N-p.T+1]...)
+		}
+		p.Batches = append(p.Batches, tb)
+	}
+	p.Tape = rapid.SliceOfN(rapid.IntRange(0, 1000), 0, 60).Draw(rt, "tape")
+	return p
+}
+
+func c10RunAcross(t *testing.T, st *vstat.Stats, p tPlan) *viol {
+	fx, err := signingFixture(t, p.N, p.T)
+	if err != nil {
+		return violf("harness", "fixture: %v", err)
+	}
+	var obs *tObs
+	synctest.Test(t, func(t *testing.T) {
+		root := tmpRoot("c10x-")
+		defer os.RemoveAll(root)
+		obs = runSignTape(fx, p, root, true)
+	})
+	if obs.Err != nil {
+		return violf("harness", "%v", obs.Err)
+	}
+	if obs.Viol != nil {
+		obs.Viol.Key = "answer-counted-for-another-batch:" + obs.Viol.Key
+		return obs.Viol
+	}
+	if obs.LateToOpen {
+		st.Class("answer-to-an-ended-batch-delivered-while-a-batch-with-the-same-ids-was-open")
+		st.NonTrivial(fmt.Sprintf("across/%d/%d/%v", p.N, p.T, obs.History))
+		st.SampleEvery(20, map[string]any{"n": p.N, "t": p.T, "history": obs.History, "final_states": obs.States})
+	}
+	return nil
 }
 
 // events a participant may legitimately send in each state
